@@ -330,6 +330,23 @@ func driveC13(seed int64, tier, out, replay string) {
 				what = fmt.Sprintf("the same operation caused different sub-requests on send %d", i+1)
 			}
 		}
+		// the same operation several times in ONE batch: every entry answers as the operation sent alone
+		if what == "" && len(c.Faults) == 0 && !listedShape && data0 != "" {
+			one := opBody(op)
+			batch := "[" + strings.Join([]string{string(one), string(one), string(one), string(one)}, ",") + "]"
+			ho := r.PostRaw([]byte(batch), "application/json")
+			var arr []map[string]interface{}
+			if json.Unmarshal(ho.Body, &arr) != nil || len(arr) != 4 {
+				what = "a batch of four copies of the operation was not answered with four results: " + shortStr(string(ho.Body), 200)
+			} else {
+				for bi, e := range arr {
+					if d := fake.CanonJSON(e["data"]); d != data0 && what == "" {
+						what = fmt.Sprintf("entry %d of a batch of four copies of the operation answers %s, the operation alone %s", bi, shortStr(d, 250), shortStr(data0, 250))
+					}
+				}
+			}
+			obs.Count("same_operation_four_times_in_one_batch")
+		}
 		for _, s := range r.Services {
 			s.Faults = nil
 		}
